@@ -105,6 +105,7 @@ func challengeClass(h string) int {
 }
 
 func c03(c *Ctx) {
+	checkPrincipalEqual(c)
 	s := newTestService(c, []string{"HTTP", "host.test.gokrb5"})
 	cat := defectCatalogue()
 	skew := 5 * time.Minute
